@@ -4,6 +4,8 @@ EXTENDS LHAbstract
 W4 == [i \in 0..3 |-> 1]                                   \* four members of weight 1, f = 1
 W4w == [i \in 0..3 |-> IF i = 0 THEN 3 ELSE IF i = 3 THEN 1 ELSE 2]   \* weights 3,2,2,1: W = 8, f = 2, Q = 6
 W5 == [i \in 0..4 |-> 1]                                   \* five members of weight 1: W = 5, f = 1, Q = 4
+W7 == [i \in 0..6 |-> IF i < 2 THEN 3 ELSE IF i < 4 THEN 2 ELSE 1]   \* weights 3,3,2,2,1,1,1: W = 13, f = 4, Q = 9
+Byz7 == {1, 6}                                              \* weight 3 + 1 = f
 ByzOne == {1}
 ByzLast == {3}
 ByzWeighted == {2}                                          \* weight 2 = f
